@@ -199,6 +199,7 @@ impl Ty {
                     "result" => "Result",
                     "nonNull" => "NonNull",
                     "manuallyDrop" => "ManuallyDrop",
+                    "maybeUninit" => "MaybeUninit",
                     o => o,
                 };
                 format!("{}{}", n, args(&vec![], ts))
